@@ -313,8 +313,20 @@ impl Uni {
                 t.push(self.kind_of(*k).to_string());
             }
         }
+        // which behaviour `export` has on a definition node (DESIGN §10 row 4, not C06's
+        // subject): probed, so that the model follows the implementation on this point
+        t.push((export_renames_definition() as u8).to_string());
         t
     }
+}
+
+/// does `export(node, name)` overwrite the export name of a definition node?
+pub fn export_renames_definition() -> bool {
+    let mut g = CompositionGraph::new();
+    let id = g.types_mut().add_defined_type(DefinedType::Alias(ValueType::Primitive(PrimitiveType::U8)));
+    let n = g.define_type("a", Type::Value(ValueType::Defined(id))).expect("define");
+    g.export(n, "b").expect("export");
+    g[n].export_name() == Some("b")
 }
 
 #[derive(Clone, Debug, PartialEq)]
